@@ -48,6 +48,13 @@ class CellMonitor:
         self.atom_ids = {}
         self.max_bruteforce = max_bruteforce
         self.nontrivial_queries = 0
+        # latent breaches: atoms whose registration no longer matches the structure. They make SOME
+        # query answer wrong for as long as the same Cells object keeps being queried, whether or not
+        # a query near them is actually issued.
+        self.stale_removed = {}  # id(atom) -> (atom, site)
+        self.stale_moved = {}  # id(atom) -> (atom, site)
+        self.latent = []
+        self._latent_seen = set()
 
     def aid(self, atom):
         i = self.atom_ids.get(id(atom))
@@ -125,6 +132,19 @@ def monitor(mon: CellMonitor):
         if want:
             mon.nontrivial_queries += 1
         qsite = call_site()
+        for gid, (g, site) in list(mon.stale_removed.items()):
+            if gid in current or g.__dict__.get("cell") is None:
+                mon.stale_removed.pop(gid, None)  # back in the structure, or unregistered meanwhile
+            elif g in self.cellmap.get(g.cell, []) and (site, "ghost") not in mon._latent_seen:
+                mon._latent_seen.add((site, "ghost"))
+                mon.latent.append({"kind": "latent-ghost", "cause": "removed-from-residue-while-registered", "site": site, "atom": _name(g), "query": qsite})
+        for mid, (m, site) in list(mon.stale_moved.items()):
+            c = m.__dict__.get("cell")
+            if c is None or c == key_of(size, m.x, m.y, m.z):
+                mon.stale_moved.pop(mid, None)
+            elif mid in current and m in self.cellmap.get(c, []) and (site, "miss") not in mon._latent_seen:
+                mon._latent_seen.add((site, "miss"))
+                mon.latent.append({"kind": "latent-miss", "cause": "moved-while-registered", "site": site, "atom": _name(m), "query": qsite})
         for b in want:
             if id(b) not in got:
                 mon.misses.append(diagnose_miss(mon, self, atom, b, qsite))
@@ -139,6 +159,7 @@ def monitor(mon: CellMonitor):
             mon.last_write[id(self)] = call_site()
             mon.hist("write-registered", mon.last_write[id(self)])
             mon.log("write", mon.aid(self), name, value)
+            mon.stale_moved[id(self)] = (self, mon.last_write[id(self)])
         elif name in ("x", "y", "z") and id(self) in mon.atom_ids:
             mon.log("write", mon.aid(self), name, value)
         if o_setattr:
@@ -153,6 +174,7 @@ def monitor(mon: CellMonitor):
             mon.removed[id(atom)] = call_site()
             mon.hist("removed-registered", mon.removed[id(atom)])
             mon.aid(atom)
+            mon.stale_removed[id(atom)] = (atom, mon.removed[id(atom)])
         return o_remove_atom(self, atomname)
 
     C.assign_cells, C.add_cell, C.remove_cell, C.get_near_cells = _w_assign, _w_add, _w_remove, _w_query
